@@ -18,6 +18,7 @@ from gosym.terms import Term, sgn  # noqa: E402
 from gosym.mdd import TRUE  # noqa: E402
 
 _PROG = None
+_PROG_SCALED = None
 _SEED = 0
 _DEFAULT_TIMEOUT = 600
 
@@ -144,7 +145,9 @@ def _worker(job):
     res = {'label': job.label, 'harness': job.harness, 'ok': True, 'candidates': [], 'samples': [],
            'stats': {}, 'error': None, 'inexact': 0, 'unsupported': []}
     try:
-        ses = Session(_PROG, seed=_SEED, solver_timeout_ms=job.opts.get('solver_timeout_ms', 20000))
+        sd = job.opts.get('scale_depth')
+        res['scale_depth'] = sd
+        ses = Session(_PROG_SCALED if sd else _PROG, seed=_SEED, solver_timeout_ms=job.opts.get('solver_timeout_ms', 20000))
         ex = ses.ex
         for k, v in job.opts.items():
             if k.startswith('ex.'):
@@ -193,7 +196,7 @@ def _worker(job):
                 verdict, assign = ses.model_pc(pc, extras)
                 if verdict == 'sat':
                     inputs = {name: concrete_input(ex, assign, cells) for name, cells in cellsout}
-                    res['samples'].append({'mark': rid, 'inputs': {k: v.hex() for k, v in inputs.items()},
+                    res['samples'].append({'mark': rid, 'scale_depth': sd, 'inputs': {k: v.hex() for k, v in inputs.items()},
                                            'script': [_scriptval(ex, assign, t) for t in nondet],
                                            'call': go_call(job, inputs),
                                            'count': ex.mdd.count(pc, nbytes) if not extras else None})
@@ -260,9 +263,18 @@ class Check:
     # ------------------------------------------------------------------
     def run_jobs(self, nproc=None):
         global _PROG, _SEED
+        global _PROG_SCALED
         work = tempfile.mkdtemp(prefix='verif-%s-' % self.pid)
+        sds = sorted(set(j.opts.get('scale_depth') for j in self.jobs if j.opts.get('scale_depth')))
+        if len(sds) > 1:
+            raise ValueError('one depth scale per check')
+        self.scale_depth = sds[0] if sds else None
         try:
-            _PROG = build_program(work)
+            if self.scale_depth:
+                _PROG, _PROG_SCALED = build_program(work, scale_depth=self.scale_depth)
+                self.scaled_sites = sorted(set(_PROG_SCALED.scaled_sites))
+            else:
+                _PROG = build_program(work)
         finally:
             shutil.rmtree(work, ignore_errors=True)
         _SEED = self.seed
@@ -286,6 +298,7 @@ class Check:
         for r in self.results:
             for c in r['candidates']:
                 c['job'] = r['label']
+                c['scale_depth'] = r.get('scale_depth')
                 if c['verdict'] == 'sat':
                     cands.append(c)
                 elif c['verdict'] == 'unknown':
@@ -302,13 +315,15 @@ class Check:
                 todo.append(c)
         if not todo:
             return
-        cases = [(c['rname'], c['script'], c['call']) for c in todo]
-        try:
-            out = native_replay(cases)
-        except Exception as e:
-            for c in todo:
-                self.unconfirmed.append({'job': c['job'], 'what': c['what'], 'reason': 'replay could not run: %s' % e})
-            return
+        out = {}
+        for sd in sorted(set(c.get('scale_depth') for c in todo), key=lambda x: x or 0):
+            grp = [c for c in todo if c.get('scale_depth') == sd]
+            cases = [(c['rname'], c['script'], c['call']) for c in grp]
+            try:
+                out.update(native_replay(cases, scale_depth=sd))
+            except Exception as e:
+                for c in grp:
+                    self.unconfirmed.append({'job': c['job'], 'what': c['what'], 'reason': 'replay could not run: %s' % e})
         for c in todo:
             verdict, detail = out.get(c['rname'], ('MISSING', ''))
             site = (c['kind'], c['what'], c['pos'])
@@ -321,6 +336,8 @@ class Check:
 
     def _report(self, c):
         desc = '%s %s %s' % (c['kind'], c['what'], c['pos'].replace(REPO + '/', ''))
+        if c.get('scale_depth'):
+            desc += ' [nesting limit scaled 10000 -> %d in code and reference]' % c['scale_depth']
         for k in self.known:
             # known: property=<id> <substring that must occur in the description>
             parts = k.split(None, 1)
@@ -334,7 +351,7 @@ class Check:
         path = os.path.join(VERIF, 'replays', '%s-%s.json' % (self.pid, h))
         os.makedirs(os.path.dirname(path), exist_ok=True)
         with open(path, 'w') as f:
-            json.dump({'property': self.pid, 'what': desc, 'call': c['call'], 'script': c['script'],
+            json.dump({'property': self.pid, 'what': desc, 'call': c['call'], 'script': c['script'], 'scale_depth': c.get('scale_depth'),
                        'inputs': c.get('inputs'), 'native': c.get('native'), 'job': c['job']}, f, indent=1)
         if not any(v['what'] == desc for v in self.violations):
             self.violations.append({'what': desc, 'replay': path, 'call': c['call'], 'native': c.get('native')})
@@ -350,7 +367,8 @@ class Check:
         import random
         random.Random(self.seed).shuffle(pool)
         pool.sort(key=lambda s: -len(s['call']))
-        for s in pool[:maxn]:
+        pool = pool[:maxn]
+        for s in pool:
             cases.append(('s%d' % len(cases), s['script'], s['call']))
         if True:
             if True:
@@ -358,8 +376,11 @@ class Check:
                     pass
         if not cases:
             return 0, 0
+        out = {}
         try:
-            out = native_replay(cases)
+            for sd in sorted(set(s.get('scale_depth') for s in pool), key=lambda x: x or 0):
+                grp = [cs for cs, s in zip(cases, pool) if s.get('scale_depth') == sd]
+                out.update(native_replay(grp, scale_depth=sd))
         except Exception as e:
             self.notes.append('sample replay could not run: %s' % e)
             return 0, 0
@@ -416,6 +437,7 @@ class Check:
             'samples': samples[:25] or [{'note': 'no passing sample'}],
             'functions_encoded': fenc,
             'bounds': self.bounds,
+            'depth_limit_scaling': ({'scaled_to': self.scale_depth, 'comparison_sites_rewritten': getattr(self, 'scaled_sites', [])} if getattr(self, 'scale_depth', None) else None),
             'jobs': [{'job': r['label'], 'ok': r['ok'], 'error': r['error'], 'wall_s': round(r['wall_s'], 2),
                       'path_classes': r.get('classes'), 'inputs_covered': str(r.get('inputs_covered')),
                       'input_space': str(r.get('input_space')), 'partition_complete': r.get('partition_complete')}
